@@ -1688,6 +1688,7 @@ static void InitFields(void) {
 
     AddRegImm8("RD", 0x1800);
     AddRegImm8("WR", 0x1000);
+    AddRegImm8("WT", 0x1000); /* Panafacom's mnemonic, cf. WTR and the MN1610ALT target */
     AddRegImm8("MVI", 0x0800);
 
     AddLevel("LPSW", 0x2004);
